@@ -650,7 +650,9 @@ pub fn host_of(addr: &str) -> String {
 
 pub fn proxy_config(addr: &str, opts: &ProxyOpts) -> ServerProxyConfig {
     ServerProxyConfig {
-        address: addr.to_string(),
+        // the listen address differs from the announced one, as in any deployment that binds to
+        // all interfaces; nothing a client sees may ever contain it
+        address: format!("0.0.0.0:{}", addr.rsplit(':').next().unwrap_or("0")),
         announce_address: addr.to_string(),
         announce_host: host_of(addr),
         slowlog_len: NonZeroUsize::new(128).expect("nz"),
